@@ -37,7 +37,12 @@ RULE = (
     "requested / seed whose closure is not the whole grid at depth 0; distinct by inputs"
 )
 ASSUMPTIONS = [
-    "recomputed geometry is compared with tolerance 1e-12 * L^k (measured floor 4e-16); "
+    "purity: every call of extract_subgrid, partition_structured, partition_coordinates, "
+    "overlap and grid_is_connected must leave its argument grid bitwise unchanged (nodes, "
+    "face_nodes raw, cell_faces in canonical form, tags, geometry); each partition / "
+    "overlap case works on ONE grid object and re-examines it after every call by "
+    "extract_subgrid + compute_geometry against a pristine copy (two-step sequences)",
+    "recomputed geometry is compared with tolerance 1e-12 * L^k, L = grid size without absolute floor (scale axis 1e-4, 1e3 included; measured floor 4e-16); "
     "index maps, incidence and copied geometry are compared exactly",
     "'within range' for partition_structured means [0, prod(coarse_dims)): coarse_dims "
     "as given, or as inferred by determine_coarse_dimensions(num_part, cart_dims) "
@@ -57,7 +62,7 @@ BOUNDS = {
     "thorough": "extract: all subsets of letters <= 9 cells (2-d) / 12 cells (3-d), connected subsets <= 3 of the others, 3 embeddings; structured: nx<=8 (1-d), nx<=7,ny<=4 (2-d), <=4x3x3 (3-d); overlap: all seeds on letters <= 9 cells, depth<=3",
 }
 MIN_CLASSES = 8
-CHUNK = 4
+CHUNK = 2
 TOL = 1e-12
 
 MODES = ("sorted", "rev-nosort", "mask", "nogeo")
@@ -94,6 +99,13 @@ def cases(tier):
                     out.append({"fam": "extract", "name": name, "spec": v, "k": k})
             else:
                 out.append({"fam": "extract", "name": name, "spec": v, "k": "conn3"})
+        # scale axis (node coordinates x s): subsets of size 1, 2 and all cells
+        for sc, m in ((1e-4, None), (1e3, ["q1", "t1"] if d < 3 else None)):
+            v = dict(spec, scale=sc)
+            if m:
+                v["motion"] = m
+            for k in sorted({1, min(2, nc), nc} if nc <= _all_subsets_limit(tier, d) else {1, nc}):
+                out.append({"fam": "extract", "name": name, "spec": v, "k": k})
     for n in _cart_sizes(tier):
         out.append({"fam": "structured", "n": n})
     for name, spec in G.base_specs(tier):
@@ -145,24 +157,25 @@ def _extract_one(pp, g_geo, g_raw, cells, mode, label, out):
     nc = g_geo.num_cells
     cs = np.array(sorted(cells))
     parent = g_geo
+    if mode == "nogeo":
+        parent = g_raw
     try:
-        if mode == "sorted":
-            h, fmap, nmap = pp.partition.extract_subgrid(parent, cs.copy())
-            order = cs
-        elif mode == "rev-nosort":
-            h, fmap, nmap = pp.partition.extract_subgrid(parent, cs[::-1].copy(), sort=False)
-            order = cs[::-1]
-        elif mode == "mask":
-            mask = np.zeros(nc, dtype=bool)
-            mask[cs] = True
-            h, fmap, nmap = pp.partition.extract_subgrid(parent, mask)
-            order = cs
-        else:
-            parent = g_raw
-            h, fmap, nmap = pp.partition.extract_subgrid(parent, cs.copy())
-            order = cs
+        with G.Pure(out, "extract_subgrid", [parent], grid=label, cells=cells, mode=mode) as pure:
+            if mode == "rev-nosort":
+                h, fmap, nmap = pp.partition.extract_subgrid(parent, cs[::-1].copy(), sort=False)
+                order = cs[::-1]
+            elif mode == "mask":
+                mask = np.zeros(nc, dtype=bool)
+                mask[cs] = True
+                h, fmap, nmap = pp.partition.extract_subgrid(parent, mask)
+                order = cs
+            else:
+                h, fmap, nmap = pp.partition.extract_subgrid(parent, cs.copy())
+                order = cs
     except Exception as e:
         out.violate("extract_subgrid raised", grid=label, cells=cells, mode=mode, error=repr(e))
+        return "VIOLATION"
+    if pure.changed:
         return "VIOLATION"
     D = G.dense_incidence(parent)
     FN = parent.face_nodes.toarray() != 0
@@ -201,18 +214,23 @@ def _extract_one(pp, g_geo, g_raw, cells, mode, label, out):
 
             with warnings.catch_warnings():
                 warnings.simplefilter("ignore")
-                h.compute_geometry()
+                # the subgrid shares arrays with its parent: recomputing must not write
+                # through to the parent
+                with G.Pure(out, "compute_geometry of the extracted subgrid", [parent], grid=label, cells=cells, mode=mode) as pure2:
+                    h.compute_geometry()
+            if pure2.changed:
+                return "VIOLATION"
         except Exception as e:
             bad = "compute_geometry of the subgrid raised: " + repr(e)
     detail = {}
     if bad is None:
-        L = max(1.0, float(np.abs(g_geo.nodes - g_geo.nodes[:, :1]).max()))
+        L = max(float(np.abs(g_geo.nodes - g_geo.nodes[:, :1]).max()), float(np.abs(g_geo.nodes).max()))
         d = parent.dim
         for attr, idx, sc in (
             ("cell_volumes", order, L**d),
-            ("cell_centers", order, L + float(np.abs(g_geo.nodes).max())),
+            ("cell_centers", order, L),
             ("face_areas", fmap, L ** (d - 1)),
-            ("face_centers", fmap, L + float(np.abs(g_geo.nodes).max())),
+            ("face_centers", fmap, L),
             ("face_normals", fmap, L ** (d - 1)),
         ):
             b = getattr(g_geo, attr)
@@ -292,6 +310,63 @@ def _run_extract(case, out):
         out.samples.append({"family": "extract", "grid": label, "subset_size": case["k"]})
 
 
+# ------------------------------------------------------------------ sequences on one object
+
+
+class _Ref:
+    """Topology and geometry of a pristine copy of the grid (built separately), against
+    which the *same* grid object is re-examined after every call under test."""
+
+    def __init__(self, g):
+        import warnings
+
+        with warnings.catch_warnings():
+            warnings.simplefilter("ignore")
+            g.compute_geometry()
+        self.D = G.dense_incidence(g)
+        self.geo = {f: getattr(g, f).copy() for f in G.GEOM_FIELDS}
+        self.L = max(float(np.abs(g.nodes - g.nodes[:, :1]).max()), float(np.abs(g.nodes).max()))
+        self.dim = g.dim
+
+
+def _followup(g, ref, cells, out, what, **detail):
+    """Second step of a two-step sequence: after the call ``what`` on the grid object g,
+    extract ``cells`` from the same object, recompute the subgrid geometry and compare
+    with the pristine reference. Returns True when everything agrees."""
+    import warnings
+
+    from porepy.grids import partition as part
+
+    cells = np.array(sorted(int(c) for c in cells))
+    try:
+        with warnings.catch_warnings():
+            warnings.simplefilter("ignore")
+            h, fmap, _ = part.extract_subgrid(g, cells.copy())
+            h.compute_geometry()
+    except Exception as e:
+        out.violate(f"{what} followed by extract_subgrid on the same grid object: raised", cells=cells, error=repr(e), **detail)
+        return False
+    fmap = np.asarray(fmap)
+    if not np.array_equal(G.dense_incidence(h), ref.D[fmap][:, cells]):
+        out.violate(f"{what} followed by extract_subgrid on the same grid object: incidence differs from the pristine grid", cells=cells, **detail)
+        return False
+    d, L = ref.dim, ref.L
+    for attr, idx, sc in (
+        ("cell_volumes", cells, L**d),
+        ("cell_centers", cells, L),
+        ("face_areas", fmap, L ** (d - 1)),
+        ("face_centers", fmap, L),
+        ("face_normals", fmap, L ** (d - 1)),
+    ):
+        b = ref.geo[attr]
+        b = b[idx] if b.ndim == 1 else b[:, idx]
+        ok, dev = _close(getattr(h, attr), b, sc)
+        if not ok:
+            out.violate(f"{what} followed by extract_subgrid on the same grid object: recomputed {attr} differs from the pristine grid", cells=cells, deviation=dev, scale=sc, **detail)
+            return False
+    return True
+
+
 # ------------------------------------------------------------------ partitioners
 
 
@@ -313,15 +388,23 @@ def _run_structured(case, out):
     from porepy.grids import partition as part
 
     n = case["n"]
-    g = pp.CartGrid(np.array(n) if len(n) > 1 else int(n[0]))
+    mk = lambda: pp.CartGrid(np.array(n) if len(n) > 1 else int(n[0]))  # noqa: E731
+    ref = _Ref(mk())
+    g = mk()  # ONE object for the whole case: every call is followed by a re-examination
+    g.compute_geometry()
     nc = g.num_cells
     d = len(n)
     # explicit coarse dimensions
     for cd in itertools.product(*[range(1, m + 1) for m in n]):
         cd = np.array(cd)
         try:
-            p = part.partition_structured(g, coarse_dims=cd.copy())
+            with G.Pure(out, "partition_structured", [g], cart=n, coarse_dims=cd) as pure:
+                p = part.partition_structured(g, coarse_dims=cd.copy())
             bad = _label_check(p, nc, int(cd.prod()))
+            if bad is None and pure.changed:
+                bad = "argument grid mutated"
+            if bad is None and not _followup(g, ref, np.where(np.asarray(p) == np.asarray(p)[0])[0], out, "partition_structured", cart=n, coarse_dims=cd):
+                bad = "sequence check failed"
         except Exception as e:
             p, bad = None, "raised " + repr(e)
         if bad:
@@ -334,8 +417,13 @@ def _run_structured(case, out):
     for k in range(1, nc + 1):
         try:
             cd = part.determine_coarse_dimensions(k, g.cart_dims)
-            p = part.partition_structured(g, num_part=k)
+            with G.Pure(out, "partition_structured", [g], cart=n, num_part=k) as pure:
+                p = part.partition_structured(g, num_part=k)
             bad = _label_check(p, nc, int(np.prod(cd)))
+            if bad is None and pure.changed:
+                bad = "argument grid mutated"
+            if bad is None and not _followup(g, ref, np.where(np.asarray(p) == np.asarray(p)[-1])[0], out, "partition_structured", cart=n, num_part=k):
+                bad = "sequence check failed"
             if bad is None and np.any(np.asarray(cd) > np.array(n)):
                 bad = f"inferred coarse dims {cd} exceed fine dims"
         except Exception as e:
@@ -355,7 +443,8 @@ def _run_coords(case, out):
     from porepy.grids import partition as part
 
     spec = case["spec"]
-    g = G.build(spec)
+    pristine = _Ref(G.build(spec))
+    g = G.build(spec)  # ONE object for the whole case
     with warnings.catch_warnings():
         warnings.simplefilter("ignore")
         g.compute_geometry()
@@ -367,13 +456,18 @@ def _run_coords(case, out):
         try:
             with warnings.catch_warnings():
                 warnings.simplefilter("ignore")
-                p = part.partition_coordinates(g, k)
+                with G.Pure(out, "partition_coordinates", [g], grid=label, spec=spec, target=k) as pure:
+                    p = part.partition_coordinates(g, k)
             nparts = np.inf
             if ref:
                 ext = g.nodes[:d].max(axis=1) - g.nodes[:d].min(axis=1)
                 delta_int = np.ceil(np.power(k, 1 / d) * ext / ext.min()).astype(int)
                 nparts = int(np.prod(part.determine_coarse_dimensions(k, delta_int)))
             bad = _label_check(p, nc, nparts)
+            if bad is None and pure.changed:
+                bad = "argument grid mutated"
+            if bad is None and not _followup(g, pristine, np.where(np.asarray(p) == np.asarray(p)[0])[0], out, "partition_coordinates", grid=label, spec=spec, target=k):
+                bad = "sequence check failed"
         except Exception as e:
             p, bad = None, "raised " + repr(e)
         if bad:
@@ -392,7 +486,13 @@ def _run_coords(case, out):
 def _run_overlap(case, out):
     from porepy.grids import partition as part
 
-    g = G.build(case["spec"])
+    pristine = _Ref(G.build(case["spec"]))
+    g = G.build(case["spec"])  # ONE object for the whole case (all seeds, both criteria)
+    import warnings
+
+    with warnings.catch_warnings():
+        warnings.simplefilter("ignore")
+        g.compute_geometry()
     nc = g.num_cells
     A = np.abs(G.dense_incidence(g))
     FN = (g.face_nodes.toarray() != 0).astype(int)
@@ -411,8 +511,11 @@ def _run_overlap(case, out):
                 bad = None
                 got = None
                 try:
-                    got = np.atleast_1d(part.overlap(g, np.array(seed), depth, criterion=crit))
-                    if got.dtype.kind not in "iu" or np.unique(got).size != got.size or (got.size and (got.min() < 0 or got.max() >= nc)):
+                    with G.Pure(out, "overlap", [g], grid=label, spec=case["spec"], seed=seed, depth=depth, criterion=crit) as pure:
+                        got = np.atleast_1d(part.overlap(g, np.array(seed), depth, criterion=crit))
+                    if pure.changed:
+                        bad = "argument grid mutated"
+                    elif got.dtype.kind not in "iu" or np.unique(got).size != got.size or (got.size and (got.min() < 0 or got.max() >= nc)):
                         bad = "result is not a duplicate-free list of cell indices"
                     else:
                         gs = set(int(v) for v in got)
@@ -436,9 +539,19 @@ def _run_overlap(case, out):
                     break
                 full = bool(layer.all())
                 out.ev(f"overlap/{g.dim}d/{crit}/d{depth}/" + ("full" if full else "partial"), ("ov", label, tuple(seed), crit, depth) if len(seed) < nc else None)
+            # second step on the same object: extract the seed cells and re-derive geometry
+            if _followup(g, pristine, seed, out, f"overlap(criterion={crit})", grid=label, spec=case["spec"], seed=seed):
+                out.ev(f"sequence/overlap-{crit}->extract/{g.dim}d", ("sq", label, tuple(seed), crit))
+            else:
+                out.ev("VIOLATION")
+                g = G.build(case["spec"])  # continue the case on a fresh object
+                with warnings.catch_warnings():
+                    warnings.simplefilter("ignore")
+                    g.compute_geometry()
         # grid_is_connected on the same subset
         try:
-            flag, comps = part.grid_is_connected(g, np.array(seed))
+            with G.Pure(out, "grid_is_connected", [g], grid=label, spec=case["spec"], cells=seed) as pure:
+                flag, comps = part.grid_is_connected(g, np.array(seed))
             sub = nbr["face"][np.ix_(seed, seed)]
             exp = _components(sub)
             bad = None
@@ -446,6 +559,8 @@ def _run_overlap(case, out):
                 bad = "is_connected flag differs from BFS over shared faces"
             elif sorted(len(c) for c in comps) != exp:
                 bad = "component sizes differ from BFS"
+            elif pure.changed:
+                bad = "argument grid mutated"
         except Exception as e:
             bad = "raised " + repr(e)
             exp = None
